@@ -533,7 +533,7 @@ fn main() {
     driver::main(CheckDef {
         prop: "C16",
         level: "model_checking",
-        rule: "E3: for every capacity in the list, every push count 0..=cap+extra in cycle 1 and {0,1,cap+1} in cycle 2, the complete tree of answers of every fastrand(upper) call (RNG seam) is enumerated on the real AtomicSamplingReservoir; every leaf is checked (yield subset/count/sample rate/fresh start) and retention probabilities are summed with exact rational weights; streams of non-finite values and signed zeros (compared by bit pattern) for capacities 1-8 over every seam answer; the batched entry point record_many with counts 0, 1, capacity, capacity+1 and 3*capacity+1; E1: all SC interleavings (pb-bounded) of pushes with consumes (one or two pushing threads, one or two consuming threads); distinct = distinct (configuration, yields) leaves / outcomes",
+        rule: "E3: for every capacity in the list, every push count 0..=cap+extra in cycle 1 and {0,1,cap+1} in cycle 2, the complete tree of answers of every fastrand(upper) call (RNG seam) is enumerated on the real AtomicSamplingReservoir; every leaf is checked (yield subset/count/sample rate/fresh start) and retention probabilities are summed with exact rational weights; streams of non-finite values and signed zeros (compared by bit pattern) for capacities 1-8 over every seam answer; the batched entry point record_many with counts 0, 1, capacity, capacity+1 and 3*capacity+1; E1: all SC interleavings (pb-bounded) of pushes with consumes (one or two pushing threads, one or two consuming threads); distinct = distinct (configuration, yields) leaves / outcomes; assumption check of the seam: 60000 trials per (capacity, n) in {(1,3),(1,5),(2,5),(3,7),(2,4),(1,11)} on the real generator, every position retained capacity/n of the time within 7 sigma (statistical, not an enumeration)",
         assumptions: &["the RNG is uniform over 0..upper (the seam replaces it by enumeration of all answers with weight 1/upper); the part rng-per-thread checks, outside the enumeration, that the real generator does not give every fresh thread the same answers", "E1: sequential consistency (the reservoir uses Relaxed orderings; weak-memory effects are not explored)"],
         parts,
         run,
